@@ -423,7 +423,10 @@ func c20Queries(r *Run, state string) {
 	add("Roles", func(c sdk.Context) error { _, e := k.Roles(c, &cctptypes.QueryRolesRequest{}); return e })
 	for _, s := range []string{"", Keys[0].Hex, "0x", "\xff", strings.Repeat("a", 10000)} {
 		s := s
-		add(fmt.Sprintf("Attester(%.8q)", s), func(c sdk.Context) error { _, e := k.Attester(c, &cctptypes.QueryGetAttesterRequest{Attester: s}); return e })
+		add(fmt.Sprintf("Attester(%.8q)", s), func(c sdk.Context) error {
+			_, e := k.Attester(c, &cctptypes.QueryGetAttesterRequest{Attester: s})
+			return e
+		})
 		add(fmt.Sprintf("PerMessageBurnLimit(%.8q)", s), func(c sdk.Context) error {
 			_, e := k.PerMessageBurnLimit(c, &cctptypes.QueryGetPerMessageBurnLimitRequest{Denom: s})
 			return e
@@ -454,13 +457,22 @@ func c20Queries(r *Run, state string) {
 	}
 	for i, p := range pages {
 		p := p
-		add(fmt.Sprintf("Attesters(page#%d)", i), func(c sdk.Context) error { _, e := k.Attesters(c, &cctptypes.QueryAllAttestersRequest{Pagination: p}); return e })
+		add(fmt.Sprintf("Attesters(page#%d)", i), func(c sdk.Context) error {
+			_, e := k.Attesters(c, &cctptypes.QueryAllAttestersRequest{Pagination: p})
+			return e
+		})
 		add(fmt.Sprintf("PerMessageBurnLimits(page#%d)", i), func(c sdk.Context) error {
 			_, e := k.PerMessageBurnLimits(c, &cctptypes.QueryAllPerMessageBurnLimitsRequest{Pagination: p})
 			return e
 		})
-		add(fmt.Sprintf("TokenPairs(page#%d)", i), func(c sdk.Context) error { _, e := k.TokenPairs(c, &cctptypes.QueryAllTokenPairsRequest{Pagination: p}); return e })
-		add(fmt.Sprintf("UsedNonces(page#%d)", i), func(c sdk.Context) error { _, e := k.UsedNonces(c, &cctptypes.QueryAllUsedNoncesRequest{Pagination: p}); return e })
+		add(fmt.Sprintf("TokenPairs(page#%d)", i), func(c sdk.Context) error {
+			_, e := k.TokenPairs(c, &cctptypes.QueryAllTokenPairsRequest{Pagination: p})
+			return e
+		})
+		add(fmt.Sprintf("UsedNonces(page#%d)", i), func(c sdk.Context) error {
+			_, e := k.UsedNonces(c, &cctptypes.QueryAllUsedNoncesRequest{Pagination: p})
+			return e
+		})
 		add(fmt.Sprintf("RemoteTokenMessengers(page#%d)", i), func(c sdk.Context) error {
 			_, e := k.RemoteTokenMessengers(c, &cctptypes.QueryRemoteTokenMessengersRequest{Pagination: p})
 			return e
